@@ -209,6 +209,9 @@ def run_case(case):
     cms = [model.compile_molecule(m) for m in s.mols]
     clos = [model.closable(cm)[0] for cm in cms]
     sysM = S.system_mass
+    if abs(sysM - M) > 1e-9 * max(abs(M), 1.0):
+        # the stop rule below is relative to the system mass that was WRITTEN
+        return {"viol": [{"cls": "c13.system-mass-misread", "msg": f"System({text!r}) declares the system mass {M!r}, the parsed system holds {sysM!r}", "text": text}], "cnt": {}, "nt": []}
     trace.reset()
     W._budget["left"] = None
     seq = []
